@@ -358,6 +358,15 @@ Proof.
   - intros x Hx. apply Hi. simpl in Hx. exact (remove_at_In _ _ _ Hx).
 Qed.
 
+Lemma remove_index_entry_at_incl : forall n pos n' ops, remove_index_entry_at n pos = (n', ops) ->
+  forall x, In x (index_of n') -> In x (index_of n).
+Proof.
+  intros n pos n' ops H x Hx. unfold remove_index_entry_at in H.
+  destruct (idx n) as [l|] eqn:El; [|injection H as <- <-; exact Hx].
+  destruct (nth_error l pos) as [k|]; [|injection H as <- <-; exact Hx].
+  injection H as <- <-. simpl in Hx. unfold index_of. rewrite El. eapply remove_at_In. exact Hx.
+Qed.
+
 (* the pinned InsertIndexEntryAt happily inserts a name a second time (its documented precondition);
    CloneDataNodeSubtree onto a destination that already has the entry does exactly that *)
 Lemma insert_index_entry_at_dup_refuted :
